@@ -155,13 +155,19 @@ class Check:
             out_lines.append("  construct: %s" % v.construct)
         if error:
             out_lines.append("ANALYSIS-ERROR property=%s %s" % (self.pid, error))
-        code = 2 if error else (1 if new else 0)
+        # a violation that was established stays a violation even if a later rule could not be decided
+        code = 1 if new else (2 if error else 0)
         self.write_evidence(len(new), len(listed), error)
         if not self.quiet:
             nob = len(self.obligations)
             nok = sum(1 for o in self.obligations if o["status"] == "ok")
             print("%s [%s] rules=%d functions=%d obligations=%d discharged=%d known=%d new=%d %.2fs" % (
                 self.pid, self.tier, len(self.rules), len(self.functions), nob, nok, len(listed), len(new), time.time() - self.t0))
+            if self.mutants:
+                st = [m.get("status", "") for m in self.mutants]
+                print("%s mutants: %d run, %d reported as violation, %d fail-closed (analysis-error), %d not-applicable on this tree, %d MISSED" % (
+                    self.pid, len(st), sum(x.startswith("reported") for x in st), sum(x.startswith("analysis-error") for x in st),
+                    sum(x.startswith("not-applicable") for x in st), sum(1 for m in self.mutants if not m["caught"])))
             for m in self.mutants:
                 if not m["caught"]:
                     print("MUTANT-MISSED property=%s %s" % (self.pid, m["name"]))
